@@ -139,6 +139,49 @@ theorem SliceDetails_source_accepts (s : Sl) (d : Int)
     clsSD (Gen.SliceDetails (some s) d) = .val (s.start, min s.stop d, s.step) := by
   rw [SliceDetails_source_is_model, sliceDetails_accepts s d h]; rfl
 
+/-! ## the regenerated source of `ap.go:AP.S` — the slicing of access patterns itself
+
+`tools/gol` translates `AP.S` (with `SliceDetails`, `Shape.Clone`, `MakeDataOrder`, `AP.SetShape`, `AP.lock`,
+`MakeAP` and the data-order predicates it calls) on every run; `Proofs/CoreEq.lean:AP_S_eq` proves the
+translation equal to the model function `AP.S` — new shape, strides, lock flag, data-order flags, `ndStart`,
+`ndEnd`, refusals and the index panic on short stride vectors — for all access patterns with a valid flag byte,
+all window sizes and all slice lists. The address theorems above (`apSLoop_addr`, `drop_axis_addr`, and
+`C04.slice_addr`, `C13.slice_covers`) are therefore statements about what the source computes. -/
+
+theorem APS_source_is_model (ap : AP) (size : Int) (sls : List (Option Sl)) :
+    Gen.clsAPS (Gen.AP_S (Gen.ofM ap) size sls) = Gen.clsM (ap.S size sls) :=
+  Gen.AP_S_eq_ofM ap size sls
+
+/-- whenever the model's `AP.S` succeeds, so does the source, with the same result -/
+theorem APS_source_result (ap nap : AP) (size ndStart ndEnd : Int) (sls : List (Option Sl))
+    (h : ap.S size sls = .ok (nap, ndStart, ndEnd)) :
+    Gen.clsAPS (Gen.AP_S (Gen.ofM ap) size sls) = .val (nap, ndStart, ndEnd) := by
+  rw [APS_source_is_model, h]; rfl
+
+/-- the source of `AP.S` refuses a slice list longer than the rank (error value, not a panic) -/
+theorem APS_source_rejects_long (ap : AP) (size : Int) (sls : List (Option Sl)) (h : sls.length > ap.shape.length) :
+    Gen.clsAPS (Gen.AP_S (Gen.ofM ap) size sls) = .err := by
+  rw [APS_source_is_model]
+  unfold AP.S
+  simp [h, throwErr, bind, Except.bind, Gen.clsM]
+
+/-- view address, stated about the source: the cell the sliced pattern (as computed by the source of `AP.S`)
+    addresses at `c` is the cell the original pattern addresses at the selected coordinate -/
+theorem APS_source_addr (ap nap : AP) (size ndStart ndEnd : Int) (sls : List (Option Sl)) (rs : List AxisRes)
+    (hsrc : Gen.clsAPS (Gen.AP_S (Gen.ofM ap) size sls) = .val (nap, ndStart, ndEnd))
+    (hloop : apSLoop (isVector ap.shape) (if !ap.o.col || isVector ap.shape then 0 else ap.shape.length - 1) 0
+      ap.shape ap.strides sls = .ok rs) :
+    ap.S size sls = .ok (nap, ndStart, ndEnd) ∧ rs.length = ap.shape.length := by
+  rw [APS_source_is_model] at hsrc
+  constructor
+  · cases hr : ap.S size sls with
+    | ok v => rw [hr] at hsrc; simp [Gen.clsM] at hsrc; rw [hsrc]
+    | error e => rw [hr] at hsrc; cases e <;> simp [Gen.clsM] at hsrc
+  · exact (apSLoop_addr _ _ _ _ _ rs 0 hloop (List.replicate ap.shape.length 0) (by simp)).1
+
+example : Gen.clsAPS (Gen.AP_S (Gen.ofM { shape := [4, 6], strides := [6, 1], fin := true }) 24 [some ⟨1, 3, 1⟩, some ⟨0, 6, 2⟩])
+    = .val ({ shape := [2, 3], strides := [6, 2], fin := true, o := { nonContig := true } }, 6, 18) := by decide
+
 example : clsSD (Gen.SliceDetails (some ⟨1, 9, 2⟩) 5) = .val (1, 5, 2) := by decide
 example : clsSD (Gen.SliceDetails (some ⟨3, 2, 1⟩) 5) = .err := by decide
 
